@@ -41,6 +41,7 @@ import (
 // ---------------------------------------------------------------- catalogue
 
 type TypeInfo struct {
+	Key         string // catalogue key if different from Name ("twin:<name>")
 	Name        string
 	Desc        protoreflect.MessageDescriptor
 	Type        protoreflect.MessageType
@@ -54,6 +55,15 @@ var goodTypes, badTypes []*TypeInfo
 var byPkg = map[string][]*TypeInfo{}
 var pkgNames []string
 var featureTypes []*TypeInfo
+var twinList []*TypeInfo
+
+// key returns the name an OpSpec uses for the type.
+func (ti *TypeInfo) key() string {
+	if ti.Key != "" {
+		return ti.Key
+	}
+	return ti.Name
+}
 
 func pickGood(rng *simrt.Rng) *TypeInfo {
 	if len(featureTypes) > 0 && rng.Bool(0.35) {
@@ -124,6 +134,19 @@ func buildCatalogue() {
 		} else {
 			badTypes = append(badTypes, ti)
 		}
+	}
+	// dynamic twins of generated types: same full name, different descriptor objects
+	for _, mt := range twinTypes() {
+		n := string(mt.Descriptor().FullName())
+		base := catByName[n]
+		if base == nil || !base.Reflectable {
+			continue
+		}
+		ti := &TypeInfo{Name: n, Desc: mt.Descriptor(), Type: mt, Pkg: base.Pkg, Reflectable: true}
+		catalogue = append(catalogue, ti)
+		catByName["twin:"+n] = ti
+		ti.Key = "twin:" + n
+		twinList = append(twinList, ti)
 	}
 	for p := range byPkg {
 		pkgNames = append(pkgNames, p)
@@ -770,6 +793,11 @@ func genWorkload(seed uint64, deep bool) *Workload {
 			pool = append(pool, pickGood(rng))
 		}
 	}
+	if len(twinList) > 0 && rng.Bool(0.12) {
+		// a generated type and its dynamic twin (same full name, other descriptor) side by side
+		tw := twinList[rng.Intn(len(twinList))]
+		pool = append(pool, tw, catByName[tw.Name])
+	}
 	if len(badTypes) > 0 && rng.Bool(0.10) {
 		pool = append(pool, badTypes[rng.Intn(len(badTypes))]) // failing first use
 		if rng.Bool(0.5) {
@@ -801,7 +829,7 @@ func genWorkload(seed uint64, deep bool) *Workload {
 	chains := len(pool) == 1 && pool[0].Name == "test.schema.v1.FullSchema" && rng.Bool(0.5)
 	mkOp := func() OpSpec {
 		ti := pool[rng.Intn(len(pool))]
-		op := OpSpec{Kind: opKinds[rng.Intn(len(opKinds))], Type: ti.Name, ValSeed: rng.Uint64()}
+		op := OpSpec{Kind: opKinds[rng.Intn(len(opKinds))], Type: ti.key(), ValSeed: rng.Uint64()}
 		if chains {
 			op.ValSeed &^= 3 // newPopulated builds a chain when ValSeed%4 == 0
 			if rng.Bool(0.7) {
